@@ -536,7 +536,6 @@ DRIVERS = ("pn531", "pn532", "pn533", "rcs956", "acr122", "arygonA",
 def build(driver):
     """-> (device, link); for udp link is the FakeNet"""
     import logging
-    import nfc.clf
     patch_time()
     CLOCK.reset()
     log = logging.getLogger("simchip")
